@@ -146,8 +146,115 @@ fn o_gas(c: &mut VmCase) -> String {
     }
 }
 
+/// C11: a single state-read op on a recording view: the request, the layout, the frame.
+fn o_state(c: &mut VmCase) -> String {
+    use essential_asm::StateRead as SR;
+    let ops = match asm::from_bytes(c.prog.iter().copied()).collect::<Result<Vec<_>, _>>() {
+        Ok(o) => o,
+        Err(_) => return "na".into(),
+    };
+    let [Op::StateRead(sr)] = ops[..] else { return "na not a single state read".into() };
+    let (want_view, ext) = match sr {
+        SR::KeyRange => (0usize, false),
+        SR::KeyRangeExtern => (0, true),
+        SR::PostKeyRange => (1, false),
+        SR::PostKeyRangeExtern => (1, true),
+    };
+    // documented operand layout, read off the initial stack independently of the implementation
+    let st: Vec<i64> = c.vm.stack.to_vec();
+    let n_st = st.len();
+    if n_st < 3 {
+        return "na".into();
+    }
+    let (addr, num, klen) = (st[n_st - 1], st[n_st - 2], st[n_st - 3]);
+    if addr < 0 || num < 0 || klen < 0 || (klen as usize) + 3 + if ext { 4 } else { 0 } > n_st {
+        return "na invalid operands".into();
+    }
+    let klen = klen as usize;
+    let key: Vec<i64> = st[n_st - 3 - klen..n_st - 3].to_vec();
+    let below = n_st - 3 - klen - if ext { 4 } else { 0 };
+    let contract: Vec<u8> = if ext {
+        st[below..below + 4].iter().flat_map(|w| w.to_be_bytes()).collect()
+    } else {
+        c.sols[c.index].predicate_to_solve.contract.0.to_vec()
+    };
+    let (state, calls) = views(c);
+    let access = Access::new(Arc::new(c.sols.clone()), c.index as u16);
+    let cost = &c.cost;
+    let costf = move |op: &Op| cost.of(op);
+    let limit = GasLimit { per_yield: GasLimit::DEFAULT_PER_YIELD, total: c.limit };
+    let mem_before: Vec<i64> = c.vm.memory.to_vec();
+    let r = c.vm.exec_ops(&ops, access, &state, &costf, limit);
+    let calls = calls.lock().unwrap().clone();
+    if calls.len() != 1 {
+        return format!("FAIL {} state reads were made instead of one", calls.len());
+    }
+    let (v, cc, k, n) = &calls[0];
+    if *v != want_view {
+        return format!("FAIL asked the {} view", if *v == 0 { "pre" } else { "post" });
+    }
+    if *cc != contract {
+        return format!("FAIL asked contract {} instead of {}", hex::encode(cc), hex::encode(&contract));
+    }
+    if *k != key || *n != num as usize {
+        return format!("FAIL asked key {:?} count {} instead of {:?} {}", k, n, key, num);
+    }
+    // what the view answered (recomputed from the script)
+    let answer = c
+        .entries
+        .iter()
+        .find(|e| e.view == want_view && e.contract == contract && e.key == key && e.n == num as usize)
+        .map(|e| e.res.clone())
+        .unwrap_or(Ok(vec![]));
+    match (r, answer) {
+        (Err(e), Err(code)) => match &e.1 {
+            essential_vm::error::OpError::StateRead(StErr(x)) if *x == code => "ok state-error".into(),
+            _ => "FAIL a state error was not returned unchanged".into(),
+        },
+        (Ok(_), Err(_)) => "FAIL state error swallowed".into(),
+        (Err(_), Ok(vals)) => {
+            let need = addr as u128 + 2 * vals.len() as u128 + vals.iter().map(|v| v.len() as u128).sum::<u128>();
+            if need <= mem_before.len() as u128 {
+                "FAIL read fails although the values fit".into()
+            } else {
+                "ok does-not-fit".into()
+            }
+        }
+        (Ok(_), Ok(vals)) => {
+            let mem: Vec<i64> = c.vm.memory.to_vec();
+            if mem.len() != mem_before.len() {
+                return "FAIL memory length changed".into();
+            }
+            let a = addr as usize;
+            let m = vals.len();
+            let mut off = a + 2 * m;
+            let mut expect = mem_before.clone();
+            for (i, v) in vals.iter().enumerate() {
+                if a + 2 * i + 1 >= expect.len() || off + v.len() > expect.len() {
+                    return "FAIL read succeeds although the values do not fit".into();
+                }
+                expect[a + 2 * i] = off as i64;
+                expect[a + 2 * i + 1] = v.len() as i64;
+                expect[off..off + v.len()].copy_from_slice(v);
+                off += v.len();
+            }
+            if mem != expect {
+                return format!("FAIL memory layout {:?} expected {:?}", &mem[..mem.len().min(24)], &expect[..expect.len().min(24)]);
+            }
+            if c.vm.stack[..] != st[..below] {
+                return "FAIL stack below the operands changed".into();
+            }
+            "ok layout".into()
+        }
+    }
+}
+
 pub fn run(fam: &str, t: &mut Toks) -> Option<R<String>> {
     match fam {
+        "o_state" => Some((|| {
+            let mut c = p_case(t)?;
+            Ok(o_state(&mut c))
+        })()),
         "o_steps" => Some((|| {
             let mut c = p_case(t)?;
             Ok(o_steps(&mut c))
